@@ -132,9 +132,6 @@ impl PortSys {
             if mt < r.last_t {
                 return Err(format!("{}: time stamp {} goes back (previous {})", a.text(), mt, r.last_t));
             }
-            if mt != self.clock {
-                return Err(format!("{}: time stamp {} is not the current state count {}", a.text(), mt, self.clock));
-            }
             r.last_t = mt;
             r.ann = Some(mv);
         }
